@@ -47,6 +47,8 @@ int prefill = 0x5A;              /* pattern output objects are filled with befor
 size_t env_tail = 0;             /* junk bytes placed right after every input buffer (non-ASan builds) */
 unsigned char env_tail_byte = 0x41;
 int env_misalign = -1;            /* input placement: -1 = derived from the input (0..7), else fixed offset */
+int env_stack = -1;              /* stack pattern before library calls: -1 = derived from the case line, else this byte */
+unsigned long line_hash = 0;
 #define MAXHB 64
 static struct { void *p, *base; } hb[MAXHB];
 int ledger_errors = 0;
@@ -137,6 +139,28 @@ size_t ledger_live_bytes(void) {
     return k;
 }
 
+/* fills the 24 KiB of stack below the caller's frame: four families of patterns chosen by the hash of the case line -
+   every 32-bit word the same small number (0..47: field numbers, indices, counts), all bits set, small pseudo-random
+   words, pseudo-random bytes.  A replay of the same line reproduces the same pattern. */
+__attribute__((noinline, no_sanitize_address, no_sanitize_undefined)) void dirty_stack(void) {
+    volatile uint32_t a[6144];
+    unsigned long h = line_hash;
+    uint32_t x = (uint32_t) (h >> 16) | 1u;
+    int mode = env_stack >= 0 ? 4 : (int) (h % 4);
+    for (int i = 0; i < 6144; i++) {
+        switch (mode) {
+            case 0: a[i] = (uint32_t) ((h >> 8) % 48); break;
+            case 1: a[i] = 0xFFFFFFFFu; break;
+            case 2: x ^= x << 13; x ^= x >> 17; x ^= x << 5; a[i] = x % 64; break;
+            case 3: x ^= x << 13; x ^= x >> 17; x ^= x << 5; a[i] = x; break;
+            default: a[i] = 0x01010101u * (uint32_t) (env_stack & 255);
+        }
+    }
+}
+
+void *volatile launder_sink;
+__attribute__((noinline)) void launder(void *p) { launder_sink = p; }
+
 /* ------------------------------------------------------------------ helpers */
 static int hexv(int c) {
     if (c >= '0' && c <= '9') return c - '0';
@@ -189,6 +213,8 @@ int main(void) {
         size_t L = strlen(line);
         while (L && (line[L - 1] == '\n' || line[L - 1] == '\r')) line[--L] = 0;
         if (L == 0 || line[0] == '#') { continue; }
+        line_hash = 1469598103934665603UL;
+        for (size_t i = 0; i < L; i++) line_hash = (line_hash ^ (unsigned char) line[i]) * 1099511628211UL;
         int nt = 0;
         for (char *p = strtok(line, " "); p && nt < MAX_TOKS; p = strtok(NULL, " ")) toks[nt++] = p;
         for (int i = nt; i < MAX_TOKS; i++) toks[i] = NULL;
@@ -208,6 +234,7 @@ int main(void) {
             heap_fill = (unsigned char) tok_ll(toks[1]); prefill = (int) tok_ll(toks[2]);
             env_tail = (size_t) tok_ll(toks[3]); env_tail_byte = (unsigned char) tok_ll(toks[4]);
             if (toks[5]) env_misalign = (int) tok_ll(toks[5]);
+            if (toks[6]) env_stack = (int) tok_ll(toks[6]);
             printf("env set"); found = 1;
         }
         if (!found) printf("unknown-op %s", toks[0]);
